@@ -47,11 +47,6 @@ def constructor_free(ck):
                 ok = len(cs) == 1 and cs[0][0] == "one" and isinstance(cs[0][1], tuple) and cs[0][1][0] == "array" and len(cs[0][1][1]) == 4 and all(P.call_name(x) == "cb.add_virtual_target" for x in cs[0][1][1])
         ck.require(ok, "FREE", "agg/free/stored/" + field, "the created targets are exactly what is stored in targets.%s (filled by the prover as an input)" % field, "%s:%s" % (body.file, body.line),
                    T.show(val)[:200] if val is not None else None)
-    fixtures_positive(ck)
-
-
-def fixtures_positive(ck):
-    pass
 
 
 def run(ck):
@@ -64,3 +59,8 @@ def run(ck):
     ob2, v2 = pubb.analyse(ck)
     ob2.emit(ck, "C10")
     constructor_free(ck)
+    if ck.tier == "thorough":
+        from . import fixtures
+        fixtures.expect_positive(ck, "new_unsafe")
+        fixtures.expect_positive(ck, "add_virtual_target")
+        fixtures.expect_uncond_positive(ck)
